@@ -9,7 +9,8 @@ Executable, total, no Mathlib.  `H` is the parity-check matrix of one sector
 index, a *qubit* `q` a column index, and `q` is an (hyper)edge between the rows in which its
 column is nonzero.  A column of weight 1 is a dangling edge (there is NO boundary vertex and no
 notion of a cluster "touching the boundary" in this implementation); two equal columns of
-weight 2 are parallel edges.  Nothing in the code rejects either.
+weight 2 are parallel edges (`Toric2DCode` with a side of length 2).  Nothing in the code rejects
+either.
 
 numpy arrays that the code mutates are functions here (`Nat → Int`, `Nat → Bool`), indexed
 `0 … m-1` (stabilizers) / `0 … n-1` (qubits):
@@ -28,6 +29,9 @@ numpy arrays that the code mutates are functions here (`Nat → Int`, `Nat → B
   of the set the model computed itself; otherwise (or when the schedule is exhausted) the list
   order is used and, in the first case, `ok` is cleared.  The correspondence feeds the orders
   recorded from the running implementation; the theorems hold for every schedule.
+* `Peeling_Tree.peel` is modelled as it is SINCE the repair of known finding D15 (one qubit per
+  syndrome-carrying leaf: `shared.argmax(axis=1)`); the behaviour before (every shared qubit) is
+  kept as `oldPeelRound … oldDecodeWith` for the regression theorems.
 * loops that run "until a condition" take explicit fuel; running out of fuel is reported as
   divergence (the Python loops for ever in these cases: e.g. an odd number of defects in a
   connected component, which happens on planar codes).
@@ -340,7 +344,8 @@ inductive PeelErr
   /-- `peel` does not terminate -/
   | peelDiverges
   /-- the numbers of parents and leaves differ: numpy raises (IndexError / ValueError) or
-      broadcasts; outside the model -/
+      broadcasts; outside the model.  Also: the matrix has no column (`argmax` of an empty
+      axis raises ValueError). -/
   | shape
   deriving Repr, DecidableEq
 
@@ -382,18 +387,24 @@ def insertU (x : Nat) : List Nat → List Nat
 /-- `np.unique` -/
 def unique (l : List Nat) : List Nat := l.foldr insertU []
 
+/-- `shared[k].argmax()` for the row of one selected (parent, leaf) pair: the FIRST member qubit
+    adjacent to both; `argmax` of an all-`False` row is 0 -/
+def firstShared (H : Mat) (stabs qubits : Nat → Bool) (p c : Nat) : Nat :=
+  ((List.range (ncols H)).filter fun q => subH H stabs qubits p q && subH H stabs qubits c q).headD 0
+
 /-- one turn of the `while np.sum(curr_syndromes) > 0` loop of `peel` -/
 def peelRound (H : Mat) (stabs qubits : Nat → Bool) (st : PeelSt) : Except PeelErr PeelSt :=
   let m := H.length
   -- np.where(child_to_p[curr_leaves_ind].toarray())[1]
   let parents := st.leaves.flatMap fun c => (List.range m).filter fun p => st.S p c
   if parents.length ≠ st.leaves.length then .error .shape
+  -- `argmax` along an axis of length 0 raises ValueError (whatever the number of rows)
+  else if ncols H = 0 then .error .shape
   else
-    -- np.where((parent_qubits & leaf_qubits)[syndrome_leaves, :])[1]
+    -- shared = (parent_qubits & leaf_qubits)[syndrome_leaves, :]; shared.argmax(axis=1):
+    -- ONE qubit per syndrome-carrying leaf, the first one it shares with its parent
     let add := (parents.zip st.leaves).flatMap fun pc =>
-      if st.syn pc.2 then
-        (List.range (ncols H)).filter fun q => subH H stabs qubits pc.1 q && subH H stabs qubits pc.2 q
-      else []
+      if st.syn pc.2 then [firstShared H stabs qubits pc.1 pc.2] else []
     -- tabulated once per round: as a bare function the compiled model would redo the update on
     -- every lookup
     let synA := tabArr m (updateSyndrome st.syn parents st.leaves)
@@ -495,6 +506,86 @@ def decodeWith (H : Mat) (sy : Vec) (sched : List (List Int)) : Run :=
     length check of the glue) -/
 def ufSolve : USolver := fun H sy =>
   match (decodeWith H sy []).outcome with
+  | .ok c => c
+  | _ => []
+
+/-! ### the code BEFORE the repair of `Peeling_Tree.peel` (regression theorems only)
+
+Until the fix `peel` extended the correction by
+`np.where((parent_qubits & leaf_qubits)[syndrome_leaves, :])[1]`: EVERY member qubit shared by a
+syndrome-carrying leaf and its parent.  Two stabilizers joined by two qubits (parallel edges:
+`Toric2DCode` with a side of length 2) then got both, which cancel.  Everything else is
+unchanged. -/
+
+/-- `peelRound` before the fix -/
+def oldPeelRound (H : Mat) (stabs qubits : Nat → Bool) (st : PeelSt) : Except PeelErr PeelSt :=
+  let m := H.length
+  let parents := st.leaves.flatMap fun c => (List.range m).filter fun p => st.S p c
+  if parents.length ≠ st.leaves.length then .error .shape
+  else
+    -- np.where((parent_qubits & leaf_qubits)[syndrome_leaves, :])[1]
+    let add := (parents.zip st.leaves).flatMap fun pc =>
+      if st.syn pc.2 then
+        (List.range (ncols H)).filter fun q => subH H stabs qubits pc.1 q && subH H stabs qubits pc.2 q
+      else []
+    let synA := tabArr m (updateSyndrome st.syn parents st.leaves)
+    let syn' := tabGet synA (updateSyndrome st.syn parents st.leaves)
+    let S' : Nat → Nat → Bool := fun p c => if c ∈ st.leaves then false else st.S p c
+    let leaves' := unique (parents.filter fun p => (List.range m).all fun c => !S' p c)
+    .ok { S := S', syn := syn', leaves := leaves', corr := st.corr ++ add,
+          rounds := st.rounds ++ [⟨parents, st.leaves, (List.range m).map st.syn⟩] }
+
+def oldPeelLoop (H : Mat) (stabs qubits : Nat → Bool) : Nat → PeelSt → Except PeelErr PeelSt
+  | 0, _ => .error .peelDiverges
+  | fuel + 1, st =>
+    if (List.range H.length).any st.syn then
+      match oldPeelRound H stabs qubits st with
+      | .error e => .error e
+      | .ok st' => oldPeelLoop H stabs qubits fuel st'
+    else .ok st
+
+/-- `peelTree` before the fix -/
+def oldPeelTree (H : Mat) (sy : Vec) (sPar qPar : Nat → Int) (r : Nat) : Except PeelErr TreeTrace :=
+  let m := H.length
+  let sA := tabArr m fun s => decide (s < m) && decide (sPar s = (r : Int))
+  let qA := tabArr (ncols H) fun q => decide (q < ncols H) && decide (qPar q = (r : Int))
+  let stabs : Nat → Bool := tabGet sA fun s => decide (s < m) && decide (sPar s = (r : Int))
+  let qubits : Nat → Bool := tabGet qA fun q => decide (q < ncols H) && decide (qPar q = (r : Int))
+  match buildTree H stabs qubits r with
+  | none => .error .treeDiverges
+  | some (S0, leaves) =>
+    let SA := tabArr2 m S0
+    let S : Nat → Nat → Bool := tabGet2 SA m S0
+    let syn : Nat → Bool := fun s => sy.getD s 0 != 0 && stabs s
+    match oldPeelLoop H stabs qubits (m + 1) ⟨S, syn, leaves, [], []⟩ with
+    | .error e => .error e
+    | .ok st =>
+      .ok { root := r, stabs := (List.range m).filter stabs, qubits := (List.range (ncols H)).filter qubits,
+            edges := (List.range m).flatMap fun p => ((List.range m).filter (S p)).map fun c => (p, c),
+            leaves := leaves, rounds := st.rounds, corr := st.corr }
+
+def oldPeelAll (H : Mat) (sy : Vec) (sPar qPar : Nat → Int) : List Nat → Except PeelErr (List TreeTrace)
+  | [] => .ok []
+  | r :: rs =>
+    match oldPeelTree H sy sPar qPar r with
+    | .error e => .error e
+    | .ok t =>
+      match oldPeelAll H sy sPar qPar rs with
+      | .error e => .error e
+      | .ok ts => .ok (t :: ts)
+
+/-- `Support(syndrome, H).decode()` before the fix -/
+def oldDecodeWith (H : Mat) (sy : Vec) (sched : List (List Int)) : Run :=
+  let c := clustering H sy sched
+  if !c.terminated then ⟨.growthDiverges, c.sched.ok, c.bad⟩
+  else
+    match oldPeelAll H sy c.sPar c.qPar c.roots with
+    | .error e => ⟨.peel e, c.sched.ok, c.bad⟩
+    | .ok ts => ⟨.ok (indicator (ncols H) (ts.flatMap (·.corr))), c.sched.ok, c.bad⟩
+
+/-- `ufSolve` before the fix -/
+def oldUfSolve : USolver := fun H sy =>
+  match (oldDecodeWith H sy []).outcome with
   | .ok c => c
   | _ => []
 
